@@ -293,6 +293,11 @@ def run(R):
                                 for o in list(rv.get('ops', [])) + [rv[k_] for k_ in ('use', 'op') if isinstance(rv.get(k_), dict)]:
                                     if 'k' in o and re.sub(r'::<[^:]*>$', '', o['k'].get('fn') or '') == owner:
                                         return True
+                                    # a closure captured by the future of an (async) helper that applies it to the entry
+                                    if isinstance(rv.get('agg'), dict) and rv['agg'].get('kind') in ('coroutine', 'closure') and ('mv' in o or 'cp' in o):
+                                        o2_ = strip_refs(m.origin(o))
+                                        if o2_ and o2_[0] == 'agg' and isinstance(o2_[1], dict) and o2_[1].get('def') == owner:
+                                            return True
                     for bb, t in m.calls():
                         for a in t['args']:
                             if 'k' in a and re.sub(r'::<[^:]*>$', '', a['k'].get('fn') or '') == owner:
